@@ -21,6 +21,10 @@ type c10Base struct {
 	// Uses is the "uses" relation among the objects U1000 reports in this base (written by
 	// hand from the source): ignoring an object makes everything reachable from it used.
 	Uses map[string][]string
+	// LineUses: line of the directive file -> reported objects that become used when the object
+	// declared on that line is ignored for U1000 although it is not reported itself (the members
+	// of a used type: "ignoring a type ignores its fields and methods").
+	LineUses map[int][]string
 	// Want lists the problems the base must have (role:line:check), a sanity check of the
 	// generator, not of staticcheck.
 	Want []string
@@ -96,7 +100,7 @@ func H§(m map[string]int) bool {
 		Uses: map[string][]string{"unusedA": {"helperB"}},
 		Want: []string{
 			"d:7:ST1003", "d:10:S1002", "d:10:SA4000", "d:13:SA4000", "d:19:SA4006", "d:19:SA4017",
-			"d:20:SA4000", "d:21:SA4006", "d:21:SA4017", "d:23:SA4018", "d:25:SA4000",
+			"d:20:SA4000", "d:23:SA4018", "d:25:SA4000",
 			"d:38:U1000", "d:40:U1000", "o:13:SA4000", "o:14:SA4000",
 		},
 	},
@@ -161,7 +165,8 @@ func Second§(q bool) bool {
 	return bad_name§
 }
 `,
-		Uses: map[string][]string{"deadTop": {"deadMid"}, "deadMid": {"deadLeaf"}},
+		Uses:     map[string][]string{"deadTop": {"deadMid"}, "deadMid": {"deadLeaf"}},
+		LineUses: map[int][]string{10: {"dead"}},
 	},
 	{
 		// the directive goes into the file that sorts LAST; the first file has problems on the
